@@ -49,7 +49,12 @@ impl Write for ChoppySink {
             return Err(std::io::Error::new(std::io::ErrorKind::Interrupted, "try again"));
         }
         let n = b.len().min(self.chunk);
-        self.buf.lock().unwrap().extend_from_slice(&b[..n]);
+        let mut g = self.buf.lock().unwrap();
+        if g.len() > (1 << 26) {
+            // a correct muxer never gets here (files are a few KB); stops runaway retry loops of a broken one
+            return Err(std::io::Error::new(std::io::ErrorKind::Other, "sink full (harness cap)"));
+        }
+        g.extend_from_slice(&b[..n]);
         Ok(n)
     }
     fn flush(&mut self) -> std::io::Result<()> {
@@ -482,8 +487,8 @@ pub fn def() -> PropertyDef {
             "wall-clock independence is exercised only by running at different times (nothing on the muxing path reads a clock; with_current_time is not generated)",
         ],
         subs: vec![
-            Box::new(PSub { name: "instances_threads_sinks", quick: 400, thorough: 20_000, strat: pure_strategy, eval: eval_pure }),
-            Box::new(PSub { name: "equivalent_paths", quick: 1500, thorough: 50_000, strat: path_strategy, eval: eval_paths }),
+            Box::new(PSub { name: "instances_threads_sinks", quick: 1200, thorough: 40000, strat: pure_strategy, eval: eval_pure }),
+            Box::new(PSub { name: "equivalent_paths", quick: 8000, thorough: 250000, strat: path_strategy, eval: eval_paths }),
             Box::new(ESub { name: "send_generic", run: run_probe, replay: replay_probe }),
         ],
     }
